@@ -128,6 +128,13 @@ int main() {
     // sphere limit of J2, gamma_e, gamma_p against a tiny flattening
     sph::ng::Ell S0(6378137, 3.986004418e14Q, 7.292115e-5Q, 0), S1(6378137, 3.986004418e14Q, 7.292115e-5Q, 1e-9Q);
     chk("J2 sphere limit", S0.J2, S1.J2, 1e-8Q * fabsq(S0.J2) + 1e-9Q);
+    // series and closed forms of q, q' agree where both are accurate
+    for (Q z : {Q(0.19), Q(0.1), Q(0.05)}) {
+      chk("q series = closed form", sph::ng::qfun(z), ((1 + 3 / (z * z)) * atanq(z) - 3 / z) / 2, 1e-27Q * z * z * z);
+      chk("q' series = closed form", sph::ng::qpfun(z), 3 * (1 + 1 / (z * z)) * (1 - atanq(z) / z) - 1, 1e-28Q * z * z);
+    }
+    chk("q continuous at the switch", sph::ng::qfun(Q(0.2)), sph::ng::qfun(Q(0.2) + Q(1e-30)), 1e-29Q);
+    chk("q' continuous at the switch", sph::ng::qpfun(Q(0.2)), sph::ng::qpfun(Q(0.2) + Q(1e-30)), 1e-29Q);
     chk("gamma_e sphere limit", S0.gammae, S1.gammae, 1e-7Q * S0.gammae);
     chk("gamma_p sphere limit", S0.gammap, S1.gammap, 1e-7Q * S0.gammap);
   }
